@@ -350,7 +350,8 @@ def ext_sorted(e, args, kw, node, st):
     q, w = z3.Int(uid("q")), z3.Int(uid("w"))
     st.assume(to_z3(out.length) == n)
     same = z3.And(*[a == b for a, b in zip(_leaves(sel(out.elems, q)), _leaves(sel(xs.elems, pi[q])))])
-    st.assume(z3.ForAll([q], z3.Implies(z3.And(q >= 0, q < n), z3.And(pi[q] >= 0, pi[q] < n, pinv[pi[q]] == q, same)), patterns=[pi[q]]))
+    st.assume(z3.ForAll([q], z3.Implies(z3.And(q >= 0, q < n), z3.And(pi[q] >= 0, pi[q] < n, pinv[pi[q]] == q, same)),
+                        patterns=[pi[q], to_z3(sel(out.elems, q).items[0].ident)]))
     st.assume(z3.ForAll([q], z3.Implies(z3.And(q >= 0, q < n), z3.And(pinv[q] >= 0, pinv[q] < n, pi[pinv[q]] == q)), patterns=[pinv[q]]))
     oq, ow = sel(out.elems, q).items, sel(out.elems, w).items
     lt0 = to_z3(_spec_call(e, "res_lt", [ow[0], oq[0]], st))
@@ -520,6 +521,17 @@ def rec_tight(s, r1, r2):
 
 
 @spec
+def lo_index(S, a, b):
+    """position of the lower of the residues S[a], S[b] (a before b in the file)"""
+    return ite(res_lt(S[a], S[b]), a, b)
+
+
+@spec
+def hi_index(S, a, b):
+    return ite(res_lt(S[a], S[b]), b, a)
+
+
+@spec
 def rm(cmap, coords, k):
     """the residue recorded for the k-th centroid"""
     return cmap[coords[k]]
@@ -556,6 +568,8 @@ _RM = lambda k: f"rm(coordinates_residue_map, coordinates, {k})"
 _RI, _RJ = _RM("EN[SRC2[m]][0]"), _RM("EN[SRC2[m]][1]")
 _UI, _UJ = _RM("EN[u][0]"), _RM("EN[u][1]")
 _AM, _BM = "SRC0[EN[SRC2[m]][0]]", "SRC0[EN[SRC2[m]][1]]"
+_LO = lambda m: f"lo_index({_S}, {_AM.replace('[m]', '[' + m + ']')}, {_BM.replace('[m]', '[' + m + ']')})"
+_HI = lambda m: f"hi_index({_S}, {_AM.replace('[m]', '[' + m + ']')}, {_BM.replace('[m]', '[' + m + ']')})"
 
 
 class find_stackings_c:
@@ -621,7 +635,7 @@ class find_stackings_c:
         ]},
         3: {"index": "q3", "seq": "SP", "inv": [
             "len(stackings) == q3",
-            "forall(lambda q: implies(0 <= q and q < q3, rec_of(stackings[q], SP[q])), pats=['stackings[q].topology', 'ident(SP[q][0])'])",
+"forall(lambda q: implies(0 <= q and q < q3, rec_of(stackings[q], pairs[SORTED_PI[q]])), pats=['stackings[q].topology', 'stackings[q].nt1.label', 'SORTED_PI[q]'])",
         ]},
     }
     ghost = [
@@ -649,15 +663,31 @@ class find_stackings_c:
         {"when": "before", "at": "stackings = []", "label": "pairs-vs-definition",
          "do": [f"assert forall(lambda m: implies(0 <= m and m < len(pairs), 0 <= {_AM} and {_AM} < {_BM} and {_BM} < {_N} and {_EL(_AM)} and {_EL(_BM)} "
                 f"and stk({_S}[{_AM}], {_S}[{_BM}], EPS) and pair_loose(pairs[m], {_S}[{_AM}], {_S}[{_BM}])), pats=['SRC2[m]', 'ident(pairs[m][0])'])",
+                f"assert forall(lambda m: implies(0 <= m and m < len(pairs), 0 <= {_LO('m')} and {_LO('m')} < {_N} and 0 <= {_HI('m')} and {_HI('m')} < {_N} "
+                f"and {_LO('m')} != {_HI('m')} and {_EL(_LO('m'))} and {_EL(_HI('m'))} and pairs[m][0] == {_S}[{_LO('m')}] and pairs[m][1] == {_S}[{_HI('m')}]), "
+                f"pats=['SRC2[m]', 'ident(pairs[m][0])'])",
                 "assert forall(lambda m, w: implies(0 <= m and m < w and w < len(pairs), not (pairs[m][0] == pairs[w][0] and pairs[m][1] == pairs[w][1])), "
                 "pats=[['ident(pairs[m][0])', 'ident(pairs[w][0])']])",
                 f"assert forall(lambda a, b: implies(0 <= a and a < b and b < {_N} and {_EL('a')} and {_EL('b')} and stk({_S}[a], {_S}[b], 0 - EPS), "
                 f"(POS0[a], POS0[b]) in kdtree.query_pairs(D_MAX)), pats=[['ident({_S}[a])', 'ident({_S}[b])']])",
                 f"assert forall(lambda a, b: implies(0 <= a and a < b and b < {_N} and {_EL('a')} and {_EL('b')} and stk({_S}[a], {_S}[b], 0 - EPS), "
                 f"exists(lambda m: 0 <= m and m < len(pairs) and pair_tight(pairs[m], {_S}[a], {_S}[b]))), pats=[['ident({_S}[a])', 'ident({_S}[b])']])"]},
+        {"when": "before", "at": "nt1 =", "label": "sorted-triple",
+         "do": ["assert 0 <= SORTED_PI[q3] and SORTED_PI[q3] < len(pairs) and residue_i == pairs[SORTED_PI[q3]][0] and residue_j == pairs[SORTED_PI[q3]][1] "
+                "and topology == pairs[SORTED_PI[q3]][2]",
+                "assert topology == 'upward' or topology == 'downward' or topology == 'inward' or topology == 'outward'"]},
         {"when": "before", "at": "return stackings", "label": "records-vs-pairs",
          "do": ["assert len(stackings) == len(pairs) and forall(lambda q: implies(0 <= q and q < len(stackings), 0 <= SORTED_PI[q] and SORTED_PI[q] < len(pairs) "
-                "and SORTED_PINV[SORTED_PI[q]] == q and rec_of(stackings[q], pairs[SORTED_PI[q]])), pats=['stackings[q].topology'])"]},
+                "and SORTED_PINV[SORTED_PI[q]] == q and rec_of(stackings[q], pairs[SORTED_PI[q]])), pats=['stackings[q].topology', 'stackings[q].nt1.label', 'SORTED_PI[q]'])",
+                f"assert forall(lambda q: implies(0 <= q and q < len(stackings), same_ids(stackings[q], {_S}[{_LO('SORTED_PI[q]')}], {_S}[{_HI('SORTED_PI[q]')}])), "
+                f"pats=['stackings[q].topology', 'stackings[q].nt1.label', 'SORTED_PI[q]'])",
+                "assert forall(lambda m: implies(0 <= m and m < len(pairs), 0 <= SORTED_PINV[m] and SORTED_PINV[m] < len(stackings) "
+                "and rec_of(stackings[SORTED_PINV[m]], pairs[m])), pats=['SORTED_PINV[m]', 'ident(pairs[m][0])'])",
+                "assert forall(lambda q, w: implies(0 <= q and q < w and w < len(stackings), "
+                "not (pairs[SORTED_PI[q]][0] == pairs[SORTED_PI[w]][0] and pairs[SORTED_PI[q]][1] == pairs[SORTED_PI[w]][1])), pats=[['SORTED_PI[q]', 'SORTED_PI[w]']])",
+                "assert forall(lambda q, w: implies(0 <= q and q < w and w < len(stackings), "
+                "not res_lt(pairs[SORTED_PI[w]][0], pairs[SORTED_PI[q]][0]) and implies(pairs[SORTED_PI[w]][0] == pairs[SORTED_PI[q]][0], "
+                "not res_lt(pairs[SORTED_PI[w]][1], pairs[SORTED_PI[q]][1]))), pats=[['SORTED_PI[q]', 'SORTED_PI[w]']])"]},
         {"when": "after", "at": "pairs = []", "label": "ghost-init2", "do": ["let SRC2 = empty('list[int]')", "let POS2 = empty('list[int]')"]},
         {"when": "after", "at": "residue_j =", "label": "pair-of-step",
          "do": [f"assert 0 <= i and i < j and j < len(coordinates) and residue_i == {_RM('i')} and residue_j == {_RM('j')}"]},
